@@ -282,6 +282,14 @@ fn check_cli(c: &Case, ctx: &Ctx) -> Outcome {
         let e = nk(ctx, &dir, "e.skf")?;
         let sp = model::FilterSpec { min_count: n.max(1), kind: model::FilterKind::NoAmbig, ambig_as_missing: false, ambig_mask: false, no_gap_only: false };
         model::compare_nk(&e, &t.filter(&sp), k, rc, Some(k_bits_for(k))).map_err(|m| Outcome::Fail(format!("weed --filter no-ambig --min-freq 1: {m}")))?;
+        // merging the (possibly empty) filtered file must still contribute its samples, in both orders
+        let te = t.filter(&sp);
+        must_ok(&run_ska(ctx, &dir, &["merge", "o.skf", "e.skf", "-o", "oe"]), "ska merge o e (e possibly empty)")?;
+        must_ok(&run_ska(ctx, &dir, &["merge", "e.skf", "o.skf", "-o", "eo"]), "ska merge e o (e possibly empty)")?;
+        let renamed = |tt: &Table, suffix: &str| Table { names: tt.names.iter().map(|n| format!("{n}{suffix}")).collect(), rows: tt.rows.clone() };
+        let _ = renamed;
+        model::compare_nk(&nk(ctx, &dir, "oe.skf")?, &to.merge(&te), k, rc, Some(k_bits_for(k))).map_err(|m| Outcome::Fail(format!("merge o e with e {}: {m}", if te.rows.is_empty() { "EMPTY" } else { "filtered" })))?;
+        model::compare_nk(&nk(ctx, &dir, "eo.skf")?, &te.merge(&to), k, rc, Some(k_bits_for(k))).map_err(|m| Outcome::Fail(format!("merge e o with e {}: {m}", if te.rows.is_empty() { "EMPTY" } else { "filtered" })))?;
         // map against the first sample's own records: must succeed (its k-mers are in the file)
         cli::write_fasta_auto(&dir.join("ref.fa"), &samples[0].1, None);
         let o = run_ska(ctx, &dir, &["map", "ref.fa", "x.skf"]);
@@ -297,7 +305,20 @@ fn check_cli(c: &Case, ctx: &Ctx) -> Outcome {
     match r {
         Err(Outcome::Fail(m)) => Outcome::Fail(format!("k={k} rc={rc} samples={}: {m}", show_samples(&samples))),
         Err(o) => o,
-        Ok(()) => classify(c, &t, &samples),
+        Ok(()) => {
+            let n = t.nsamples();
+            let sp = model::FilterSpec { min_count: n.max(1), kind: model::FilterKind::NoAmbig, ambig_as_missing: false, ambig_mask: false, no_gap_only: false };
+            let emptied = t.filter(&sp).rows.is_empty();
+            match classify(c, &t, &samples) {
+                Outcome::Pass { nontrivial, key, mut classes } => {
+                    if emptied {
+                        classes.push("merged_an_empty_file");
+                    }
+                    Outcome::Pass { nontrivial: nontrivial || emptied, key, classes }
+                }
+                o => o,
+            }
+        }
     }
 }
 
